@@ -1349,6 +1349,56 @@ def _ok_stores_between(r, idx, fi, name, rn, ccall, kcall):
                  % short(n, 70), where)
 
 
+COMPARER_BASE = 'mitxgraders.comparers.baseclasses.Comparer'
+CORRELATED = 'mitxgraders.comparers.baseclasses.CorrelatedComparer'
+
+
+def _failable_by_comparer_class(r, idx, fi, nm, ifexp, ccall, where):
+    """`X if isinstance(comparer, K) else Y` as third argument: decide per class of the comparer domain (plain function,
+    every Comparer subclass of the package) which value is chosen; every non-correlated comparer must get
+    config['failable_evals'] (a correlated comparer yields a single result, for which the allowance is irrelevant)."""
+    construct = nm + ': consolidate failable_evals'
+    env = fl.flat_env(fi.node)
+    test = nf.canon(ifexp.test)
+    neg = False
+    if isinstance(test, ast.UnaryOp) and isinstance(test.op, ast.Not):
+        test, neg = test.operand, True
+    b = nf.match('isinstance(_C, _K)', test)
+    cmp_arg = fl.expand(ccall.args[2], env) if len(ccall.args) > 2 else None
+    if b is None or cmp_arg is None or not nf.equal(nf.canon(fl.expand(b['_C'], env)), nf.canon(cmp_arg)):
+        return False
+    kexprs = b['_K'].elts if isinstance(b['_K'], ast.Tuple) else [b['_K']]
+    klasses = []
+    for k in kexprs:
+        d = idx.dotted_of(fi.module, k)
+        kind, obj = idx.resolve_dotted(d) if d else (None, None)
+        if kind != 'class':
+            return False
+        klasses.append(obj.qualname)
+    domain = [('a plain comparer function', None)] + [(ci.qualname.rsplit('.', 1)[-1], ci) for ci in idx.family(COMPARER_BASE)]
+    bad = []
+    for label, ci in domain:
+        inst = ci is not None and any(k in ci.mro for k in klasses)
+        chosen = ifexp.body if (inst != neg) else ifexp.orelse
+        correlated = ci is not None and CORRELATED in ci.mro
+        if correlated:
+            continue
+        if not lib.is_config(fl.expand(chosen, env), 'failable_evals'):
+            bad.append((label, chosen))
+    if not bad:
+        r.ok(construct, "config['failable_evals'] for every comparer that is compared sample by sample (%d comparer classes examined)"
+             % len(domain), where)
+    else:
+        label, chosen = bad[0]
+        r.violation(construct, "for %s (%s) consolidate_results receives `%s` instead of config['failable_evals'] (`%s`): the configured "
+                    "number of tolerated failing samples is ignored for these comparers%s"
+                    % (', '.join(l for l, _ in bad[:4]), 'isinstance(comparer, %s)' % '/'.join(k.rsplit('.', 1)[-1] for k in klasses),
+                       short(chosen), short(ifexp, 90),
+                       ' -- including the default equality_comparer' if any(l == 'EqualityComparer' for l, _ in bad) else ''),
+                    where, expected="self.config['failable_evals']", found=unparse(ifexp))
+    return True
+
+
 def d4_credit(ctx, idx):
     r = ctx.rule('D4.CREDIT', "every comparer grade is multiplied by the answer's credit before consolidation with "
                  "config['failable_evals']", floor=10)
@@ -1433,8 +1483,11 @@ def d4_credit(ctx, idx):
                     r.ok(nm + ': consolidate answer', 'the matched answer', where)
                 else:
                     r.undecided(nm + ': consolidate answer', 'second argument not recognised: %s' % short(a1), where)
+            a2x = fl.expand(a2, fl.flat_env(fi2.node)) if a2 is not None else None
             if lib.is_config(a2, 'failable_evals'):
                 r.ok(nm + ': consolidate failable_evals', "self.config['failable_evals']", where)
+            elif isinstance(a2x, ast.IfExp) and _failable_by_comparer_class(r, idx, fi2, nm, a2x, cc, where):
+                pass
             elif a2 is not None and nf.config_key(a2) is not None:
                 r.violation(nm + ': consolidate failable_evals', "failures are counted against config['%s'], not config['failable_evals']"
                             % nf.config_key(a2), where, expected="self.config['failable_evals']")
@@ -1485,7 +1538,7 @@ def _schema_entries(idx, keys):
 
 def d5_tables(ctx, idx):
     r = ctx.rule('D5.TABLE', 'tolerance is a PercentageString or a non-negative number in every math schema; samples is a '
-                 'positive int; failable_evals a non-negative int; NumericalGrader pins samples 1 / failable_evals 0', floor=20)
+                 'positive int; failable_evals a non-negative int; NumericalGrader pins samples 1 / failable_evals 0', floor=21)
     with r:
         entries = _schema_entries(idx, {'tolerance', 'samples', 'failable_evals'})
         seen = {}
@@ -1650,6 +1703,7 @@ def _percentage_string_structural(r, idx, fi, C):
             r.violation(C + ': sign', '`%s` does not refuse negative percentages' % unparse(n.test), where, expected='not percent >= 0')
         else:
             r.undecided(C + ': sign', 'sign test `%s` decides %s' % (short(n.test), tab), where)
+    _percentage_value_roundtrip(r, idx, fi, C, env)
     ends = [(h, c) for h in _helpers_called(fi) for c in lib.calls_named(h.node, 'endswith')
             if c.args and nf.const_value(c.args[0], None) == '%']
     if ends:
@@ -1662,6 +1716,57 @@ def _percentage_string_structural(r, idx, fi, C):
     else:
         r.violation(C + ': refusal', 'values that are not percentage strings fall through (None is returned as the validated '
                     'tolerance)', fi.loc)
+
+
+def _lossy_text(e):
+    """Why the string expression `e` does not reproduce a float exactly (precision-limiting conversion), or None."""
+    import string
+    for n in ast.walk(e):
+        if isinstance(n, ast.Call) and isinstance(n.func, ast.Attribute) and n.func.attr == 'format' \
+                and isinstance(n.func.value, ast.Constant) and isinstance(n.func.value.value, str):
+            try:
+                fields = list(string.Formatter().parse(n.func.value.value))
+            except ValueError:
+                return None
+            for lit, field, spec, conv in fields:
+                if field is not None and spec:
+                    return 'format spec `:%s` in %r' % (spec, n.func.value.value)
+        if isinstance(n, ast.FormattedValue) and n.format_spec is not None:
+            return 'format spec `:%s` in an f-string' % unparse(n.format_spec).strip("f'\"")
+        if isinstance(n, ast.BinOp) and isinstance(n.op, ast.Mod) and isinstance(n.left, ast.Constant) and isinstance(n.left.value, str):
+            import re as _re
+            m = _re.search(r'%[-+ #0]*\d*(?:\.\d+)?([diouxXeEfFgG])', n.left.value)
+            if m:
+                return 'conversion `%s` in %r' % (m.group(0), n.left.value)
+        if isinstance(n, ast.Call) and isinstance(n.func, ast.Name) and n.func.id in ('round', 'int', 'format') and n.args:
+            if n.func.id != 'format' or (len(n.args) > 1 and nf.const_value(n.args[1], '') != ''):
+                return '%s(...)' % n.func.id
+    return None
+
+
+def _percentage_value_roundtrip(r, idx, fi, C, env):
+    """The validated tolerance is what percentage_as_number parses later: the returned string must reproduce the parsed
+    number exactly (plain str()/repr()/'{}' formatting or the stripped input itself), not a precision-limited rendering."""
+    rets = [x for x in lib.returns_of(fi.node) if x.value is not None and not (isinstance(x.value, ast.Constant) and x.value.value is None)]
+    if not rets:
+        r.undecided(C + ': value', 'no value is returned', fi.loc)
+        return
+    for x in rets:
+        v = fl.expand(x.value, env)
+        where = lib.loc(fi, x)
+        lossy = _lossy_text(v)
+        names = {n.id for n in ast.walk(v) if isinstance(n, ast.Name)}
+        carries = any(_percent_sources(idx, fi, ast.Name(id=n, ctx=ast.Load()), env) for n in names) or \
+            bool(names & set(fi.params)) or any(nf.match('float(_W[:-1])', n) is not None for n in ast.walk(v))
+        if lossy:
+            r.violation(C + ': value', 'the validated tolerance is re-rendered with a precision-limiting conversion (%s): the percentage '
+                        "that reaches percentage_as_number is no longer the author's (e.g. '0.0000004%%' becomes '0.000000%%', i.e. an "
+                        'exact-match tolerance, and 12 significant digits are cut to 6 decimals)' % lossy, where,
+                        expected="'{percent}%'.format(percent=percent)", found=unparse(x.value))
+        elif carries:
+            r.ok(C + ': value', 'returns the parsed number rendered without a format spec (round-trips through float())', where)
+        else:
+            r.undecided(C + ': value', 'returned value not traced to the parsed percentage: %s' % short(v), where)
 
 
 def _nan_refused_elsewhere(fi, pv):
@@ -1789,6 +1894,10 @@ MUTANTS = [
     Mutant('seeded-ok-recomputed-for-all-results', FG, "            if result['ok'] == 'partial':\n                # Scaling may have taken partial credit down to zero\n                result['ok'] = self.grade_decimal_to_ok(result['grade_decimal'])\n",
            "            result['ok'] = self.grade_decimal_to_ok(result['grade_decimal'])\n", 'D4'),
     Mutant('ok-recomputed-unless-false', FG, "            if result['ok'] == 'partial':\n                # Scaling", "            if result['ok'] is not False:\n                # Scaling", 'D4'),
+    Mutant('seeded-failable-zero-for-every-comparer', FG, "        consolidated = self.consolidate_results(results, answer, self.config['failable_evals'])",
+           "        from mitxgraders.comparers import Comparer\n        failable_evals = 0 if isinstance(comparer, Comparer) else self.config['failable_evals']\n        consolidated = self.consolidate_results(results, answer, failable_evals)", 'D4'),
+    Mutant('seeded-percentage-fixed-point', VF, "                return \"{percent}%\".format(percent=percent)", "                return \"{percent:f}%\".format(percent=percent)", 'D5'),
+    Mutant('percentage-rounded', VF, "                return \"{percent}%\".format(percent=percent)", "                return \"%.3g%%\" % percent", 'D5'),
     Mutant('credit-added', FG, "            result['grade_decimal'] *= answer['grade_decimal']\n", "            result['grade_decimal'] += answer['grade_decimal']\n", 'D4'),
     Mutant('failable-evals-ignored', FG, "        consolidated = self.consolidate_results(results, answer, self.config['failable_evals'])",
            "        consolidated = self.consolidate_results(results, answer, 0)", 'D4'),
@@ -1846,6 +1955,9 @@ BENIGN = [
     Benign('percentage-string-helper', VF, "    if isinstance(value, str):\n        work = value.strip()\n        if work.endswith(\"%\"):\n            try:\n                percent = float(work[:-1])\n                # (written this way so that 'nan%' is refused too: nan < 0 is False)\n                if not percent >= 0:\n                    raise Invalid(\"Cannot have a negative percentage\")\n                return \"{percent}%\".format(percent=percent)\n            except Invalid:\n                raise\n            except Exception:\n                pass\n\n    raise Invalid(\"Not a valid percentage string\")\n",
            "    percent = _percentage_value(value.strip()) if isinstance(value, str) else None\n    if percent is None:\n        raise Invalid(\"Not a valid percentage string\")\n    if not percent >= 0:\n        raise Invalid(\"Cannot have a negative percentage\")\n    return \"{percent}%\".format(percent=percent)\n\ndef _percentage_value(text):\n    if not text.endswith(\"%\"):\n        return None\n    try:\n        return float(text[:-1])\n    except Exception:\n        return None\n"),
     Benign('ok-recomputed-unless-true', FG, "            if result['ok'] == 'partial':\n                # Scaling", "            if result['ok'] is not True:\n                # Scaling"),
+    Benign('failable-zero-for-correlated-comparers', FG, "        consolidated = self.consolidate_results(results, answer, self.config['failable_evals'])",
+           "        from mitxgraders.comparers import CorrelatedComparer\n        failable_evals = 0 if isinstance(comparer, CorrelatedComparer) else self.config['failable_evals']\n        consolidated = self.consolidate_results(results, answer, failable_evals)"),
+    Benign('percentage-fstring', VF, "                return \"{percent}%\".format(percent=percent)", "                return f\"{percent}%\""),
     Benign('tolerance-any-order', MH, "        Required('tolerance', default='0.01%'): Any(PercentageString, NonNegative(Number)),",
            "        Required('tolerance', default='0.01%'): Any(NonNegative(Number), PercentageString),"),
 ]
